@@ -246,9 +246,15 @@ def apply_op(A, op):
     elif k == "delvs":
         A.delete_vertices(list(op["vs"]))
     elif k == "recurrent":
-        A.recurrent(inplace=True)
+        if op.get("inplace", True):
+            A.recurrent(inplace=True)
+        else:
+            A = A.recurrent(inplace=False)          # G17: the history continues on the returned automaton
     elif k == "rename":
-        A.rename_generators(dict(map(tuple, op["m"])), inplace=True)
+        if op.get("inplace", True):
+            A.rename_generators(dict(map(tuple, op["m"])), inplace=True)
+        else:
+            A = A.rename_generators(dict(map(tuple, op["m"])), inplace=False)
     elif k == "copy":
         A = copy.deepcopy(A)
     elif k == "conflict":
@@ -302,6 +308,26 @@ ALPHABETS = {"default": ["a", "b", "c"], "permuted": ["c", "a", "b"], "multi": [
              "case": ["a", "A", "b"], "int": [0, 1, 2]}
 
 
+def boundary_inits():
+    """G14: the ends of every range — no vertex, one vertex, no start state, a start state without outgoing edges,
+    an acyclic automaton (every k beyond its longest word), a root that does not reach everything"""
+    return [
+        {"route": "graph", "d": [], "starts": []},
+        {"route": "empty", "starts": []},
+        {"route": "graph", "d": [[0, []]], "starts": [0]},
+        {"route": "graph", "d": [[0, []]], "starts": []},
+        {"route": "graph", "d": [[0, [["a", 0]]]], "starts": [0]},
+        {"route": "out", "d": [[0, []]], "starts": [0]},
+        {"route": "graph", "d": [[0, [["a", 1]]], [1, [["a", 2]]]], "starts": [0]},                 # longest word has length 2
+        {"route": "graph", "d": [[0, []], [1, [["a", 0], ["b", 1]]]], "starts": [0]},                # dead start state
+        {"route": "graph", "d": [[0, [["a", 0]]], [1, [["a", 0]]], [2, []]], "starts": [0]},         # 1, 2 unreachable
+        {"route": "graph", "d": [[0, [["a", 1], ["b", 1], ["c", 1]]]], "starts": [0, 1]},            # parallel edges, two starts
+        {"route": "free", "gens": [], "pack": "list"},
+        {"route": "kbmag", "labels": ["a"], "initial": [1], "transitions": [[1]]},
+        {"route": "kbmag", "labels": ["a", "b"], "initial": [1], "transitions": [[0, 0]]},
+    ]
+
+
 def rand_init(rng, vs=None, ls=None, alphabet="default"):
     vs = vs or VS[:rng.choice([1, 2, 3, 3, 4])]
     if alphabet != "default" and ls is None:
@@ -342,7 +368,7 @@ def universe(init):
         return VS, list(init["ls"])
     if init["route"] == "free":
         gens = list(init["gens"]) + [inv_gen(g) for g in init["gens"]]
-        return [""] + gens + ["z"], gens
+        return [""] + gens + ["z"], gens or ["a"]
     if init["route"] == "kbmag":
         n = len(init["transitions"])
         return list(range(0, n + 2)), list(init["labels"]) + ["z"]
@@ -381,6 +407,8 @@ def rand_op(rng, ref, vs, ls, p_invalid=0.0, fresh=True):
             op["q"] = rng.choice(["has_edge", "edge_labels", "edge_label"])
         else:
             op = {"k": k}
+        if op["k"] in ("recurrent", "rename") and rng.random() < 0.35:
+            op["inplace"] = False
         if ref.valid(op):
             return op, True
         if rng.random() < p_invalid:
@@ -388,8 +416,11 @@ def rand_op(rng, ref, vs, ls, p_invalid=0.0, fresh=True):
     return {"k": "copy"}, True
 
 
-def rand_history(rng, maxlen=40, p_invalid=0.0, fresh=True, alphabets=("default",), conflicts=False):
-    init = rand_init(rng, alphabet=rng.choice(list(alphabets)))
+def rand_history(rng, maxlen=40, p_invalid=0.0, fresh=True, alphabets=("default",), conflicts=False, boundary=0.06):
+    if rng.random() < boundary:
+        init = copy.deepcopy(rng.choice(boundary_inits()))
+    else:
+        init = rand_init(rng, alphabet=rng.choice(list(alphabets)))
     vs, ls = universe(init)
     _, ref = build(init)
     ops = []
@@ -403,6 +434,14 @@ def rand_history(rng, maxlen=40, p_invalid=0.0, fresh=True, alphabets=("default"
                 ops.append(op)
                 ref.apply(op)
                 continue
+        if conflicts and ref.E and rng.random() < 0.08:
+            # the borderline on the valid side: re-adding an edge that is already there is NOT a contradiction
+            t, l, h = rng.choice(sorted(ref.E, key=repr))
+            if rng.random() < 0.5:
+                ops.append({"k": "addel", "es": [[t, h, [l, l]]], "ir": True})
+            else:
+                ops.append({"k": "adde", "es": [[t, h, l], [t, h, l]], "ir": True})
+            continue
         op, ok = rand_op(rng, ref, vs, ls, p_invalid, fresh)
         ops.append(op)
         if not ok:
